@@ -507,6 +507,12 @@ func (srv *Server) serveUDP(l net.PacketConn) error {
 	lUDP, isUDP := l.(*net.UDPConn)
 	readerPC, canPacketConn := reader.(PacketConnReader)
 	if !isUDP && !canPacketConn {
+		// Nothing is being served and nobody will close srv.shutdown, so the
+		// server must not stay marked as started: Shutdown would block forever
+		// and a new start would be refused.
+		srv.lock.Lock()
+		srv.started = false
+		srv.lock.Unlock()
 		return &Error{err: "PacketConnReader was not implemented on Reader returned from DecorateReader but is required for net.PacketConn"}
 	}
 
